@@ -358,6 +358,8 @@ def _render(case, obl):
                 rng = "_range(%ss%d, max=%d%s%s)" % (start, cid, m, ", checkstopmax=True" if chk else "", CX2)
             else:
                 rng = "range(%ss%d)" % (start, cid)
+            if obl:
+                rng = "CAP(%s)" % rng
             if "reuse" in opts:
                 rng = "r%d" % opts["reuse"]
             elif opts.get("share"):
@@ -410,6 +412,36 @@ def run_native(case, vec):
     return out, outcomes
 
 
+class LoopRunaway(Exception):
+    pass
+
+
+class CappedRange:
+    """The library's range object behind a counter: every generated loop has a public bound of at most 3 iterations, so a
+    loop still running after 40 is not going to stop (the native twin stopped long ago). Every `for` gets the iterator the
+    library hands out for it (one range object may drive several loops, also nested ones)."""
+
+    def __init__(self, rng):
+        self.rng = rng
+
+    def __iter__(self):
+        return CappedIter(iter(self.rng))
+
+
+class CappedIter:
+    def __init__(self, it):
+        self.it, self.n = it, 0
+
+    def __iter__(self):
+        return self
+
+    def __next__(self):
+        self.n += 1
+        if self.n > 40:
+            raise LoopRunaway("a for loop over _range with a public bound of at most 3 is in its 40th iteration")
+        return next(self.it)
+
+
 def run_oblivious(case, vec, p):
     e = env.reset(p, case["bitlength"], 4 if case.get("fvar") is not None else 0)
     rt, bo, br = e.rt, e.bo, e.br
@@ -426,6 +458,7 @@ def run_oblivious(case, vec, p):
         ctx_obj = ns["_"]
     for nm in ("_if", "_elif", "_else", "_endif", "_while", "_endwhile", "_breakif", "_range", "_endfor"):
         ns[nm] = getattr(br, nm)
+    ns["CAP"] = CappedRange         # applied in the program text: _range looks for its context in the frame that calls it
     for i, v in enumerate(case["init"]):
         setattr(ctx_obj, vname(case, i), rt.PrivVal(v) if case["init_secret"][i] else v)
     if case.get("lists"):
